@@ -289,3 +289,40 @@ def _second(text, t_long):
         os.unlink(pth)
       except OSError:
         pass
+
+
+def reachability(obligations, t=3):
+  """Vacuity guard: every *named* obligation must be reachable, i.e. at least one of its
+  instances has a satisfiable hypothesis set (path condition + preconditions + invariant).
+  Returns (checked_names, vacuous_names).  `unknown` counts as reachable (not shown vacuous)."""
+  groups = {}
+  for ob in obligations:
+    if getattr(ob, 'external', None):
+      continue
+    if z3.is_false(z3.simplify(ob.goal)):
+      continue     # "this point is unreachable" obligations: contradictory hypotheses ARE the proof
+    groups.setdefault(ob.name.split('#')[0], []).append(ob)
+
+  def text(ob):
+    s = z3.Solver()
+    s.add(*ob.assumptions)
+    return s.to_smt2()
+  todo = {n: list(obs) for n, obs in groups.items() if all(ob.assumptions for ob in obs)}
+  vacuous = []
+  # round 1: first instance of every name, in parallel; later rounds: remaining instances of names still unsat
+  pending = {n: 0 for n in todo}
+  while pending:
+    batch = [(n, todo[n][i]) for n, i in pending.items()]
+    texts = [(n, text(ob)) for n, ob in batch]    # z3 API: this thread only
+    with concurrent.futures.ThreadPoolExecutor(max_workers=WORKERS) as ex:
+      res = list(ex.map(lambda nt: (nt[0], run_solver(z3_cmd(t), nt[1], t)[0]), texts))
+    nxt = {}
+    for n, st in res:
+      if st == 'unsat':
+        i = pending[n] + 1
+        if i < len(todo[n]):
+          nxt[n] = i
+        else:
+          vacuous.append(n)
+    pending = nxt
+  return len(groups), sorted(vacuous)
